@@ -29,6 +29,29 @@ use crate::tape::Tape;
 
 pub struct C06;
 
+/// Timing values: mostly plausible, sometimes at or beyond the ranges RFC 8210
+/// recommends (the statement asks for the source's values, whatever they are).
+pub fn gen_timing(t: &mut Tape) -> (u32, u32, u32) {
+    let one = |t: &mut Tape, lo: u32, hi: u32| -> u32 {
+        match t.choose(8) {
+            0 => 0,
+            1 => u32::MAX,
+            2 => lo,
+            3 => hi,
+            4 => hi.saturating_add(1),
+            _ => lo + t.choose((hi - lo) as u64 + 1) as u32,
+        }
+    };
+    // The refresh value makes the real client wait that long on the simulated
+    // clock; keep it below a few months so that a run stays far away from the
+    // range of `Instant` (u32::MAX seconds are 136 years per step).
+    let refresh = match one(t, 1, 86_400) {
+        u32::MAX => 10_000_000,
+        r => r,
+    };
+    (refresh, one(t, 1, 7_200), one(t, 600, 172_800))
+}
+
 //------------ Configuration ------------------------------------------------------
 
 #[derive(Clone, Copy, Debug, PartialEq, Eq)]
@@ -787,7 +810,7 @@ async fn chaos(sh: Arc<Shared>, uni: Arc<Universe>, mut notify: Option<NotifySen
             4 => {
                 let mut i = sh.source.inner.lock().unwrap();
                 let mut t = ctx.tape.lock().unwrap();
-                i.timing = (1 + t.choose(7200) as u32, 1 + t.choose(7200) as u32, 600 + t.choose(172_800) as u32);
+                i.timing = gen_timing(&mut t);
                 let tm = i.timing;
                 drop(t);
                 drop(i);
@@ -948,7 +971,7 @@ impl C06 {
                 let mut i = source.inner.lock().unwrap();
                 i.shuffle = t.chance(1, 2);
                 i.aspa_withdraw_first = t.chance(1, 2);
-                i.timing = (1 + t.choose(7200) as u32, 1 + t.choose(7200) as u32, 600 + t.choose(172_800) as u32);
+                i.timing = gen_timing(&mut t);
                 if t.chance(1, 5) {
                     i.decline_diff = 3;
                 }
@@ -1034,14 +1057,14 @@ impl C06 {
                 let _ = h.await;
             }
         };
-        if tokio::time::timeout(Duration::from_secs(30 * 24 * 3600), all).await.is_err() {
+        if tokio::time::timeout(Duration::from_secs(50 * 365 * 24 * 3600), all).await.is_err() {
             if let Some(p) = take_panics().first() {
                 return Err(Violation::new("panic", "task", format!("a task panicked: {}", p)));
             }
             return Err(Violation::new(
                 "hang",
                 "",
-                "routers did not finish their steps within 30 simulated days: some future never completes",
+                "routers did not finish their steps within 50 simulated years: some future never completes",
             ));
         }
         chaos_handle.abort();
@@ -1086,7 +1109,7 @@ impl C06 {
             let probe_router = RouterCfg { id: 99, initial_version: v, init: InitState::None, steps: 4 };
             let before = sh.counters.lock().unwrap().get("steps_completed");
             let h = tokio::spawn(router(sh.clone(), probe_router));
-            let _ = tokio::time::timeout(Duration::from_secs(3 * 24 * 3600), h).await;
+            let _ = tokio::time::timeout(Duration::from_secs(10 * 365 * 24 * 3600), h).await;
             let after = sh.counters.lock().unwrap().get("steps_completed");
             if after > before {
                 sh.bump("probe_converged_after_faults");
